@@ -352,7 +352,9 @@ class Parser:
                     arg_extr = arg = [tok]
                     buf.next()
             elif code == 'O':
-                if tok and tok.txt == '[':
+                if (tok and tok.txt == '['
+                        and type(tok) is not defs.VerbatimToken):
+                    # NB: verbatim text is never markup
                     delim = True
                     arg_extr = arg = self.arg_buffer(buf, pos, end=']').all()
                 else:
@@ -517,10 +519,11 @@ class Parser:
         if skip_space:
             # we do not want to remove a line break for \\ without [...]
             tok = buf.look_ahead()
-            if tok and tok.txt == '[':
+            if (tok and tok.txt == '['
+                    and type(tok) is not defs.VerbatimToken):
                 buf.skip_space()
         tok = buf.cur()
-        if tok and tok.txt == '[':
+        if tok and tok.txt == '[' and type(tok) is not defs.VerbatimToken:
             self.arg_buffer(buf, tok.pos, end=']')
 
     #   generate string from token sequence, without macro expansion
